@@ -22,7 +22,7 @@ RULE = (
     "jagged with an empty list, nested depth 3, option-typed records, option-typed lists, regular, single Awkward record}, "
     "kind of the second operand {same layout, single object, single record, other array backend}, stored systems, flavors, "
     "generic/momentum field spelling (E/e/energy, mass/M/m), scalar arguments as Python numbers or per-element arrays in the "
-    "operand's structure. A case is a list of 6 generated element vectors (well-conditioned stratum; relations "
+    "operand's structure. Further cells: the operator spellings a+b, a-b, a*s, s*a, a/s; conversions / embeddings with fractional keyword values; int64-stored and non-native-byte-order (NumPy) operands; single object x int64 / momentum-spelled Awkward array in both orders. A case is a list of 6 generated element vectors (well-conditioned stratum; relations "
     "equal/parallel/... for pairs) materialised on each backend. Non-trivial = >= 2 distinct elements and a non-flat layout or a "
     "mixed backend pairing; distinct by (cell, input)."
 )
